@@ -156,6 +156,8 @@ Holds(m, g, ev) == Ante(m, g, ev) => Cons(m, g, ev)
 
 Key(m, g, ev) == "other"
 
-Failing(g, ev) == LET g2 == GNext(g, ev) IN
-                  {m \in Monitors : Ante(m, g, ev) /\ ~ConsX(m, g, g2, ev)}
+\* g2 = GNext(g, ev), handed in as a value so that it is computed once
+FailingX(g, g2, ev) == {m \in Monitors : Ante(m, g, ev) /\ ~ConsX(m, g, g2, ev)}
+
+Failing(g, ev) == UNION {FailingX(g, g2, ev) : g2 \in {GNext(g, ev)}}
 =============================================================================
